@@ -141,7 +141,7 @@ STAGES = [
           strategy=strategy,
           examples={
               "quick": 500,
-              "thorough": 6000
+              "thorough": 12000
           },
           fork=True)
 ]
